@@ -57,7 +57,8 @@ impl<C: CounterTrait> Checker<C> for ThrottlingChecker<C> {
             );
         }
 
-        let interval_cost_time = ((batch_count as u64 * owner.rule().duration_in_sec * 1000) as f64
+        // computed in f64 (the cast back saturates): a huge duration must neither wrap nor panic
+        let interval_cost_time = (batch_count as f64 * owner.rule().duration_in_sec as f64 * 1000.0
             / token_count as f64)
             .round() as u64;
         loop {
@@ -69,7 +70,7 @@ impl<C: CounterTrait> Checker<C> for ThrottlingChecker<C> {
             let last_pass_time_arc = last_pass_time_arc.unwrap();
             let last_pass_time = last_pass_time_arc.load(Ordering::SeqCst);
             // calculate the expected pass time
-            let expected_time = last_pass_time + interval_cost_time;
+            let expected_time = last_pass_time.saturating_add(interval_cost_time);
 
             if expected_time <= current_time_in_ms
                 || expected_time - current_time_in_ms < owner.rule().max_queueing_time_ms
@@ -88,7 +89,7 @@ impl<C: CounterTrait> Checker<C> for ThrottlingChecker<C> {
                         last_pass_time_arc.store(expected_time, Ordering::SeqCst);
                         // `TokenResult::Wait` carries nanoseconds (the slot sleeps that many ns)
                         return TokenResult::new_should_wait(
-                            await_time as u64 * utils::unix_time_unit_offset(),
+                            (await_time as u64).saturating_mul(utils::unix_time_unit_offset()),
                         );
                     } else {
                         return TokenResult::new_pass();
